@@ -279,12 +279,18 @@ def run_config(ctx, rep, cfg):
     return nwalk, nstart, nsw, len(maps), npairs
 
 
+from . import affine_rules
+
+
 def run(ctx, rep):
     rep.assume("not decided: that the inverse round functions, inverse S-boxes and the alpha/k0' algebra are the inverses of the forward ones (value facts)",
                "direction trait: cursor over `schedule` starting at a constant element and stepping up = forward; starting at an index and stepping down = backward")
     for cfg in ctx.configs():
         nwalk, nstart, nsw, nmaps, npairs = run_config(ctx, rep, cfg)
+        ninv = affine_rules.check_inverse(ctx, rep, cfg)
         if cfg is None:
+            rep.floor("C03.R6", "encrypt/decrypt pairs whose linear layers were composed", ninv, 3)
+            rep.analysed["affine_not_analysed"] = affine_rules.skipped(ctx, cfg)
             rep.floor("C03.R1", "direction-constrained walkers reached", nwalk, 12)
             rep.floor("C03.R2", "schedule walks", nstart, 8)
             rep.floor("C03.R4", "mode-switch functions", nsw, 2)
